@@ -16,7 +16,7 @@ func init() {
 		Explanation: "Decides structural necessary conditions of C08: (R-C08-1) in serveJSON the invocation of the handler function is edge-dominated by five gates -- Method == POST, Content-Type == application/json, Sec-X-Tailscale-No-Browsers == setec, nil error of getIdentity(r), nil error of decoding the body into the value passed on -- the identity gate precedes the decode, and every failing gate answers through http.Error with a constant non-2xx status; " +
 			"(R-C08-2) the only routes to a db.DB operation outside package db are the function literals handed to serveJSON and List in the HTML page (itself behind Method == GET and a nil identity error); every handler registered under /api/ is a method consisting of one serveJSON call; (R-C08-3) getIdentity returns a nil error only past the nil edges of ParseAddrPort, WhoIs and the capability unmarshal, and only for a tagged node or a non-empty login; " +
 			"(R-C08-4) status table: ErrAccessDenied -> 403, ErrNotFound -> 404, ErrValueNotChanged -> 304 with no body written on that path, any other error -> a constant 4xx/5xx, 200 and the only write of response data only under nil errors of the handler and of Marshal; the client maps 404/403/304 back to the same three sentinels; " +
-			"(R-C08-5) every http.Error text in package server is a constant and the handler's result flows only to json.Marshal and from there to the 200 body; (R-C08-6) the client sends the method and the two header values the gate compares with.",
+			"(R-C08-5) every http.Error text in package server is a constant and the handler's result flows only to json.Marshal and from there to the 200 body; (R-C08-7) every error handed to fmt.Errorf on the request path of package db is wrapped with %w, so the sentinels the table tests survive; (R-C08-6) the client sends the method and the two header values the gate compares with.",
 		NotDecided:  "How encoding/json treats odd bodies (trusted); the tailnet's answers themselves.",
 		Trusted:     append([]string{"net/http.Error writes the given status", "errors.Is semantics"}, commonTrusted...),
 		Assumptions: []string{},
@@ -274,6 +274,7 @@ func runC08(c *eng.Ctx, tier string) {
 		}
 	}
 
+	errorWrapDiscipline(c, "R-C08-7")
 	c08Routes(c, sj, getIdentity)
 	c08Identity(c, getIdentity)
 	c08Client(c)
@@ -379,6 +380,59 @@ func c08Routes(c *eng.Ctx, sj, getIdentity *ssa.Function) {
 }
 
 func c08Identity(c *eng.Ctx, f *ssa.Function) {
+	// every capability-unmarshal error is tested before another unmarshal runs or
+	// the caller is accepted (an unparsable grant is never papered over)
+	var caps []*ssa.Call
+	eng.Instrs(f, func(in ssa.Instruction) {
+		if call, ok := in.(*ssa.Call); ok {
+			if cal := eng.Callee(&call.Call); cal != nil && cal.Origin() != nil && eng.FuncIs(cal.Origin(), "tailscale.com/tailcfg", "UnmarshalCapJSON") {
+				caps = append(caps, call)
+			}
+		}
+	})
+	for _, cc := range caps {
+		ev := saveErr(cc)
+		isTest := func(x ssa.Instruction) bool {
+			ifi, ok := x.(*ssa.If)
+			if !ok {
+				return false
+			}
+			v, _, isE := eng.CondOf(ifi.Cond, true).ErrCheck()
+			if !isE {
+				return false
+			}
+			if eng.Same(v, ev) {
+				return true
+			}
+			leaves, _ := eng.PhiLeaves(eng.Origin(v))
+			for _, lf := range leaves {
+				if lf.Val == ev {
+					return true
+				}
+			}
+			return false
+		}
+		hit, path := eng.Search(f, cc, nil, isTest, func(x ssa.Instruction) bool {
+			if r, isR := x.(*ssa.Return); isR {
+				return eng.IsNilConst(eng.Origin(eng.RetVals(r)[1]))
+			}
+			for _, o := range caps {
+				if x == ssa.Instruction(o) {
+					return true
+				}
+			}
+			return false
+		})
+		c.Check(hit == nil, "R-C08-3", f, cc.Pos(), "error of "+eng.CallStr(&cc.Call), "tested before another capability lookup or the acceptance of the caller (an unparsable grant makes the request fail)", func() string {
+			if hit == nil {
+				return ""
+			}
+			return eng.InstrStr(hit) + " at " + c.P.Pos(hit.Pos()) + " is reached with this error untested: " + c.P.PathStr(path)
+		}())
+	}
+	if len(caps) == 0 {
+		c.Undecided("R-C08-3", f, f.Pos(), "capability unmarshal calls", "none found")
+	}
 	for _, r := range eng.Returns(f) {
 		rv := eng.RetVals(r)
 		if !eng.IsNilConst(eng.Origin(rv[1])) {
